@@ -3,6 +3,8 @@ import PyaModel.Spec.Mem
 import PyaModel.Generated.ClassTable
 import PyaModel.Spec.WF
 import PyaModel.Spec.D04
+import PyaModel.Core.Union
+import PyaModel.Spec.D14
 /-! Line protocol driver for the value kernels (C03, C04, …).
 in : `ca <0|1> <e> <a>` | `mem <o> <T>` | `beq <a> <b>`      (s-expressions, Core/Sexp.lean)
 out: `1` | `0` | `bad-op`
@@ -28,6 +30,22 @@ def handle (line : String) : String :=
   | some [.atom "d04", a, b] =>
     match a.toTy, b.toTy with
     | some a, some b => (match d04Classes liveTable a b with | [] => "-" | cs => ",".intercalate cs)
+    | _, _ => "bad-op"
+  | some (.atom "unite" :: ts) =>
+    match Sexp.toTys ts with
+    | some ts => (unite ts).show
+    | none => "bad-op"
+  | some (.atom "d14ops" :: ts) =>
+    match Sexp.toTys ts with
+    | some ts => (match d14Ops ts with | [] => "-" | cs => ",".intercalate cs)
+    | none => "bad-op"
+  | some [.atom "d14pair", a, b] =>
+    match a.toTy, b.toTy with
+    | some a, some b => (match d14Pair a b with | [] => "-" | cs => ",".intercalate cs)
+    | _, _ => "bad-op"
+  | some [.atom "heq", a, b] =>
+    match a.toTy, b.toTy with
+    | some a, some b => b2s (Ty.hashEq a b)
     | _, _ => "bad-op"
   | some [.atom "beq", a, b] =>
     match a.toTy, b.toTy with
